@@ -28,7 +28,7 @@ ASSUMPTIONS = ["versions are Python ints; integral-float / bool versions are gra
 
 FLAWS = ["none", "none", "none", "version", "version", "trusted_sigs", "own_sigs", "type_T", "type_N", "noroot_T", "noroot_N",
          "malformed_T", "malformed_N", "junk_entry", "self_appointed", "threshold_from_new", "spelling_dups", "dup_keys_T", "dup_keys_N",
-         "raised_threshold", "many_one_short"]
+         "raised_threshold", "many_one_short", "time_T", "time_N", "time_N"]
 VERSION_PLANS = ["v", "v-1", "v+2", "1", "huge"]
 ENTRY_STATES = ["valid", "valid", "valid", "valid", "nonce", "raw_shape", "bitflip", "other_payload", "misfiled", "hex_whitespace"]
 
@@ -132,9 +132,27 @@ def root_pairs(draw):
         del ts["delegations"]["root"]
     if flaw == "noroot_N":
         del ns["delegations"]["root"]
+    if flaw in ("time_T", "time_N"):
+        # an otherwise acceptable update in which one time field uses another spelling (numeric offset for Z, blank for T, no
+        # seconds, date only, basic format, fraction ...): the reference schema decides (strptime-lenient spellings are gray)
+        from vlib import gen_mutate as MU
+        side = ts if flaw == "time_T" else ns
+        f = draw(st.sampled_from([k for k in ("expiration", "timestamp") if isinstance(side.get(k), str)]))
+        new = MU._edit(side[f], "time:" + draw(st.sampled_from(MU.TIME_EDITS)))
+        if new is not None:
+            side[f] = new
     if flaw in ("malformed_T", "malformed_N"):
         f, val = draw(st.sampled_from(MALFORM))
-        (ts if flaw == "malformed_T" else ns)[f] = val
+        side = ts if flaw == "malformed_T" else ns
+        if draw(st.booleans()):
+            # another spelling of a time (offset instead of Z, blank for T, no seconds, date only ...) or a present-but-falsy field
+            from vlib import gen_mutate as MU
+            f = draw(st.sampled_from(["expiration", "timestamp", "version"]))
+            val = draw(st.sampled_from([0, None, False, "", 0.0])) if f == "version" or draw(st.integers(0, 4)) == 0 else \
+                (MU._edit(side.get(f), "time:" + draw(st.sampled_from(MU.TIME_EDITS))) if isinstance(side.get(f), str) else "")
+            if val is None and f != "version":
+                val = ""
+        side[f] = val
     T = GM.wrap(ts)
     N = GM.wrap(ns)
     B = canon(ns)
